@@ -104,7 +104,7 @@ func (m *Model) judgePublish(w *Window, oi int) *PubJ {
 		}
 		j.Matching[c.ID] = match
 		j.Shared[c.ID] = shared
-		late := c.Conn != nil && m.Late[c.Conn.Idx] // its subscription set is not known at every instant (see Model.Late)
+		late := (c.Conn != nil && m.Late[c.Conn.Idx]) || c.SubsUnknown // its subscription set is not known (see Model.Late, MSess.SubsUnknown)
 		touched := t.Sess[c.ID] || (c.Conn != nil && t.Conns[c.Conn.Idx]) || c.Uncertain || late
 		if late && (j.Accepted || pubTouched) {
 			j.May[c.ID] = true
